@@ -95,9 +95,10 @@ class PathModel:
         out = t.render(vals)
         if t.parse(out) is None:
             return None          # a value outside this configuration's vocabulary: the Sid has no path here
-        if any(comp in ("", ".", "..") for comp in out.split("/")[1:]):
-            return None          # an empty, "." or ".." value cannot be a folder name: no path represents this Sid
-        return out
+        for seg in t.segs:
+            if len(seg) == 1 and seg[0][0] == "ph" and str(vals[seg[0][1]]) in ("", ".", ".."):
+                return None      # an empty, "." or ".." VALUE cannot be a folder name: no path represents this Sid
+        return out               # (the literal parts - e.g. a root folder spelled with '..' - are the configuration's business)
 
     def rel(self, path):
         p = str(path).replace(os.sep, "/")
